@@ -208,14 +208,18 @@ impl CaptureSocket for XPubSocket {}
 #[async_trait]
 impl Socket for XPubSocket {
     fn with_options(options: SocketOptions) -> Self {
-        let fair_queue = FairQueue::new(true);
+        let mut fair_queue = FairQueue::new(true);
+        let backend = Arc::new(XPubSocketBackend {
+            subscribers: scc::HashMap::new(),
+            fair_queue_inner: fair_queue.inner(),
+            socket_monitor: Mutex::new(None),
+            socket_options: options,
+        });
+        // A peer that closes its connection is forgotten like one whose connection fails.
+        let ended = backend.clone();
+        fair_queue.on_stream_end(move |peer_id| ended.peer_disconnected(peer_id));
         Self {
-            backend: Arc::new(XPubSocketBackend {
-                subscribers: scc::HashMap::new(),
-                fair_queue_inner: fair_queue.inner(),
-                socket_monitor: Mutex::new(None),
-                socket_options: options,
-            }),
+            backend,
             fair_queue,
             binds: HashMap::new(),
         }
